@@ -211,7 +211,7 @@ func c11Judge(w *core.WorkerCtx, net *vnet.Net, t topo, items []c11Item, desc st
 			if len(lines) > 80 {
 				break
 			}
-			lines = append(lines, fmt.Sprintf("#%d node%d %s item=%s peer=%d ok=%v %s goss=%d bad=%d", e.Seq, e.Node, e.Kind, ledger.Hex(e.Item), e.Peer, e.OK, e.Err, len(e.Goss), e.BadG))
+			lines = append(lines, fmt.Sprintf("#%d node%d %s item=%s peer=%d ok=%v %s goss=%d bad=%d %s", e.Seq, e.Node, e.Kind, ledger.Hex(e.Item), e.Peer, e.OK, e.Err, len(e.Goss), e.BadG, e.Via))
 		}
 		return map[string]any{"execution": desc, "delivery_order": net.OrderString(), "events": lines}
 	}
@@ -238,7 +238,7 @@ func c11Judge(w *core.WorkerCtx, net *vnet.Net, t topo, items []c11Item, desc st
 					if _, ok := firstOK[e.Node]; !ok {
 						firstOK[e.Node] = e.Seq
 					}
-					if e.Kind == "addleaf" && !inDeliver[e.Node] {
+					if e.Kind == "addleaf" && (e.Via == "pull" || !inDeliver[e.Node]) {
 						pulledOK[e.Node] = true
 					}
 				}
@@ -595,8 +595,8 @@ func c11Worker(w *core.WorkerCtx) {
 func init() {
 	core.Register(&core.Check{
 		Spec: core.Spec{
-			Prop: "C11",
-			Rule: "Virtual network of real nodes (real ledger, gossiper, flashback, awaiting cache, juggler) whose peer clients are stubs: a stub call marshals the message and blocks until the harness scheduler delivers it to the target's real handler. Topologies: all 9 connected unlabelled graphs on 2-4 nodes with every origin, plus sampled line/ring/star/random graphs on 5-7 nodes. One item in flight (vertex or awaiting transaction): delivery orders are enumerated systematically (choice vectors over the sorted in-flight set, odometer; bounded per tier), plus sampled policies (random, LIFO, starve-one-node, concurrent bursts to one node, 30% duplicates), mixed vertex+transaction traffic and parent+child created back to back. At logical quiescence (nothing in flight, no handler running, no gossiper goroutine outside its idle loop; parked vertices stepped through the retry hook): every honest node holds every item accepted at its origin with exactly one successful admission (awaiting transactions listed once), per (node,item) at most one send to any peer and only after the node's own admission, no send to a node listed as verified gossiper, forwarder's own valid entry present, at most k(k-1) messages per item. Gossiper entries are verified by the harness's own ed25519 check. Non-trivial = every execution; distinct by (topology, origin, item kinds, delivery order).",
+			Prop:        "C11",
+			Rule:        "Virtual network of real nodes (real ledger, gossiper, flashback, awaiting cache, juggler) whose peer clients are stubs: a stub call marshals the message and blocks until the harness scheduler delivers it to the target's real handler. Topologies: all 9 connected unlabelled graphs on 2-4 nodes with every origin, plus sampled line/ring/star/random graphs on 5-7 nodes. One item in flight (vertex or awaiting transaction): delivery orders are enumerated systematically (choice vectors over the sorted in-flight set, odometer; bounded per tier), plus sampled policies (random, LIFO, starve-one-node, concurrent bursts to one node, 30% duplicates), mixed vertex+transaction traffic and parent+child created back to back. At logical quiescence (nothing in flight, no handler running, no gossiper goroutine outside its idle loop; parked vertices stepped through the retry hook): every honest node holds every item accepted at its origin with exactly one successful admission (awaiting transactions listed once), per (node,item) at most one send to any peer and only after the node's own admission, no send to a node listed as verified gossiper, forwarder's own valid entry present, at most k(k-1) messages per item. Gossiper entries are verified by the harness's own ed25519 check. Non-trivial = every execution; distinct by (topology, origin, item kinds, delivery order).",
 			Assumptions: []string{"message order is controlled by the scheduler; interleavings inside one handler are the real ones", "the 20 s duplicate-suppression window is longer than any execution"},
 			MinEvals:    40, MinNontriv: 20,
 		},
